@@ -209,6 +209,9 @@ func keyedHistoryOpt(depth int, negDelay bool) func() {
 		opts := []keyed.Option[string, int]{nil} // (a nil option is skipped; the options after it still apply)
 		if delay {
 			opts = append(opts, keyed.WithReleaseDelay[string, int](delayArg))
+		} else {
+			// "no delay" spelled as an earlier delay overridden by a later zero one (options apply in order)
+			opts = append(opts, keyed.WithReleaseDelay[string, int](time.Second), keyed.WithReleaseDelay[string, int](0))
 		}
 		ctors := 0
 		ctor := func(key string) (keyed.Routine, int) {
